@@ -80,7 +80,9 @@ json.dump(out, sys.stdout)
 def script(kind, d):
     """fake solver of one convention; records what it was given in directory d"""
     head = '#!/bin/sh\nif [ "$1" = "--help" ]; then exit 0; fi\n'
-    if kind == 'stdin_stdout':
+    if kind == 'stdin_stdout' and os.path.exists(os.path.join(d, 'noread')):
+        body = 'echo ran > "%s/ran.txt"\n/bin/cat "%s/out.txt"\n' % (d, d)        # a solver that answers and exits without draining its input
+    elif kind == 'stdin_stdout':
         body = '/bin/cat > "%s/given.txt"\n/bin/cat "%s/out.txt"\n' % (d, d)
     elif kind == 'filein_stdout':
         body = 'for a in "$@"; do last="$a"; done\n/bin/cp "$last" "%s/given.txt"\n/bin/cat "%s/out.txt"\n' % (d, d)
@@ -94,16 +96,39 @@ def script(kind, d):
 
 
 def brute_model(nvars, clauses):
+    key = (nvars, len(clauses), tuple(clauses[0]), tuple(clauses[-1])) if clauses else None
+    if nvars > 10:
+        return PLANTED[key]
     for a in lib.assignments(nvars):
         if lib.cnf_sat(a, clauses):
             return [v if a[v] else -v for v in range(1, nvars + 1)]
     return None
 
 
+PLANTED = {}
+
+
 def random_formula(rng):
     r = rng.random()
     if r < 0.12:
         return 0, rng.choice([[], [[]]])
+    if r < 0.40:
+        # medium and large formulas with a planted model (answers split over many v lines, literals with two and three
+        # digits, DIMACS texts beyond the pipe buffer): no enumeration needed, the planted assignment is the witness
+        n = rng.choice([11, 12, 20, 21, 33, 40, 64, 101, 130])
+        A = [v if rng.random() < 0.5 else -v for v in range(1, n + 1)]
+        m = rng.choice([3, 10, 40, 40, 6000])
+        cl = []
+        for _ in range(m):
+            c = [rng.choice([1, -1]) * rng.randint(1, n) for _ in range(rng.randint(1, 4))]
+            c[rng.randrange(len(c))] = A[abs(c[0]) - 1]
+            cl.append(c)
+        if rng.random() < 0.25:
+            cl.insert(rng.randrange(len(cl) + 1), [])      # unsatisfiable: the empty clause
+            PLANTED[(n, len(cl), tuple(cl[0]), tuple(cl[-1]))] = None
+        else:
+            PLANTED[(n, len(cl), tuple(cl[0]), tuple(cl[-1]))] = A
+        return n, cl
     n = rng.randint(1, 6)
     used = rng.randint(1, n)       # variables above `used` do not occur
     m = rng.randint(0, 2 * used + 1)
@@ -134,7 +159,7 @@ def render_stdout(rng, status, A, style):
             toks.append('0')
         i = 0
         while i < len(toks) or not vlines:
-            step = rng.randint(1, max(1, len(toks))) if style.get('split') else max(1, len(toks))
+            step = style['per_line'] if style.get('per_line') else (rng.randint(1, max(1, len(toks))) if style.get('split') else max(1, len(toks)))
             chunk = toks[i:i + step]
             sep = rng.choice([' ', '  ', '\t']) if style.get('spaces') else ' '
             vlines.append('v' + ''.join(sep + t for t in chunk) + (' ' if style.get('spaces') and rng.random() < 0.3 else ''))
@@ -206,7 +231,7 @@ def _run(ctx, quick, rng, base):
         i = len(cases)
         d = os.path.join(base, 'case%d' % i)
         bind = os.path.join(d, 'bin')
-        tmpd = os.path.join(d, 'tmp')
+        tmpd = os.path.join(d, 'tmp' if i % 3 else 'tmp dir with blanks')
         os.makedirs(bind)
         os.makedirs(tmpd)
         inst_names = []
@@ -214,6 +239,8 @@ def _run(ctx, quick, rng, base):
         for name, kind in installed.items():
             sd = os.path.join(d, 'solver-' + name.replace('/', '_'))
             os.makedirs(sd)
+            if kind == 'stdin_stdout' and i % 4 == 1:
+                open(os.path.join(sd, 'noread'), 'w').close()
             path = os.path.join(bind, name) if '/' not in name else name
             with open(path, 'w') as f:
                 f.write(script(kind, sd))
@@ -237,7 +264,8 @@ def _run(ctx, quick, rng, base):
         return os.path.join(base, 'case%d' % len(cases), 'bin', name)
 
     styles = [dict(), dict(split=True), dict(split=True, spaces=True), dict(crlf=True, split=True), dict(status_last=True, split=True),
-              dict(terminator='own-line', split=True), dict(terminator='none'), dict(shuffled=True, split=True), dict(no_final_newline=True)]
+              dict(terminator='own-line', split=True), dict(terminator='none'), dict(shuffled=True, split=True), dict(no_final_newline=True),
+              dict(split=True, per_line=10), dict(split=True, per_line=4), dict(split=True, per_line=3), dict(split=True, per_line=7), dict(split=True, per_line=1)]
 
     # ---- stream 1: truthful solvers, every supported name through sameas, three conventions ----
     reps = 8 if quick else 40
@@ -452,6 +480,8 @@ def _run(ctx, quick, rng, base):
                 given = open(gd, newline='').read()
                 if given != r['dimacs']:
                     fails.append(('wrong-input', 'the solver did not receive F.to_dimacs()'))
+            elif os.path.exists(os.path.join(os.path.dirname(gd), 'ran.txt')):
+                pass        # the solver ran but does not read its input (by construction of this case)
             else:
                 ctx.violation('correspondence', 'the solver the model selects (%s) is not the one that ran; theorems C20_first_installed_wins / '
                               'C20_command_interface no longer cover the code' % nm,
